@@ -120,7 +120,18 @@ def run(spec):
     return result
 
 
+def die_with_parent():
+    """A shard must not outlive the check that started it (PR_SET_PDEATHSIG; best effort)."""
+    try:
+        import ctypes
+        import signal
+        ctypes.CDLL(None, use_errno=True).prctl(1, int(signal.SIGKILL), 0, 0, 0)
+    except Exception:
+        pass
+
+
 def main(argv):
+    die_with_parent()
     with open(argv[1]) as f:
         spec = json.load(f)
     res = run(spec)
